@@ -197,6 +197,13 @@ class Rig:
             await asyncio.sleep(0)
         ep.writer.wait_closed = wait_closed
 
+    def slow_close(self, cid: int, on: bool = True):
+        """closing this connection takes time: our disconnect() stays in wait_closed until finish_close()"""
+        self.eps[cid]._verif_close_hold = on
+
+    def closing_pending(self):
+        return sorted(cid for cid, ep in self.eps.items() if any(not f.done() for f in getattr(ep, '_verif_close_waiters', [])))
+
     def begin_close(self, cid: int):
         """The remote side closes; our disconnect() stays in the CLOSING state (wait_closed pending) until finish_close()."""
         ep = self.eps[cid]
